@@ -63,6 +63,10 @@ async def _stream_scenario(path: str, scenario: str) -> dict[str, Any]:
     tr = _asyncio_transport(adapter)
     loop = asyncio.get_running_loop()
     try:
+        if scenario == "eof_then_reset":
+            # the peer half-closes first (the reading side of the adapter has seen end-of-stream), then stops reading, then vanishes
+            b.shutdown(socket.SHUT_WR)
+            await asyncio.sleep(0.05)
         t1 = loop.create_task(_send(adapter, path, TOTAL))
         t2 = loop.create_task(_send(adapter, path, TOTAL)) if scenario in ("cancel_one", "two_senders") else None
         await asyncio.sleep(0.25)  # real time; the peer does not read
@@ -76,7 +80,7 @@ async def _stream_scenario(path: str, scenario: str) -> dict[str, Any]:
             obs["resumed"] = not pending
             obs["errors"] = [repr(t.exception()) for t in done if t.exception() is not None]
             obs["buffer_at_return"] = tr.get_write_buffer_size()
-        elif scenario == "reset":
+        elif scenario in ("reset", "eof_then_reset"):
             b.setsockopt(socket.SOL_SOCKET, socket.SO_LINGER, struct.pack("ii", 1, 0))
             b.close()
             done, pending = await asyncio.wait([t1], timeout=30)
@@ -113,12 +117,17 @@ class _StubDatagramTransport(asyncio.DatagramTransport):
     def __init__(self) -> None:
         super().__init__()
         self.sent: list[tuple[bytes, Any]] = []
+        self.pause_at: int | None = None
+        self.proto: Any = None
         self.closing = False
         self._sock = socket.socket(socket.AF_INET, socket.SOCK_DGRAM)
         self._sock.bind(("127.0.0.1", 0))
 
     def sendto(self, data: Any, addr: Any = None) -> None:
         self.sent.append((bytes(data), addr))
+        if self.pause_at is not None and len(self.sent) == self.pause_at and self.proto is not None:
+            # what asyncio does when this datagram takes the write buffer over the high-water mark
+            self.proto.pause_writing()
 
     def is_closing(self) -> bool:
         return self.closing
@@ -170,12 +179,27 @@ async def _datagram_scenario(kind: str, scenario: str) -> dict[str, Any]:
         t0 = loop.create_task(send(0))
         await harness.settle()
         obs["unpaused_send_returns"] = t0.done() and t0.exception() is None
+        tr.proto = proto
+        if scenario == "pause_inside_sendto":
+            # the datagram that crosses the high-water mark: the transport pauses the protocol from inside sendto();
+            # that send is handed over but must not return before writing is resumed
+            tr.pause_at = len(tr.sent) + 1
+            tx = loop.create_task(send(9))
+            await harness.settle()
+            obs["crossing_datagram_handed_over"] = len(tr.sent) == tr.pause_at
+            obs["crossing_send_suspended"] = not tx.done()
+            proto.resume_writing()
+            await harness.settle()
+            obs["crossing_send_resumed"] = tx.done() and tx.exception() is None
+            if not tx.done():
+                tx.cancel()
+            tr.pause_at = None
         proto.pause_writing()
         tasks = [loop.create_task(send(i)) for i in (1, 2, 3)]
         await harness.settle()
         obs["parked_while_paused"] = all(not t.done() for t in tasks)
         obs["datagrams_handed_over"] = len(tr.sent)
-        if scenario == "resume":
+        if scenario in ("resume", "pause_inside_sendto"):
             proto.resume_writing()
             await harness.settle()
             obs["all_resumed"] = all(t.done() and t.exception() is None for t in tasks)
@@ -222,7 +246,7 @@ def _judge_stream(chk: Check, obs: dict[str, Any]) -> None:
             problems.append(("buffer_not_empty_at_return", f"{obs['buffer_at_return']} bytes buffered when send returned"))
         if obs.get("peer_got_all") is False:
             problems.append(("bytes_missing", "the peer did not receive everything"))
-        if scenario == "reset" and not obs.get("failed_with_connection_error"):
+        if scenario in ("reset", "eof_then_reset") and not obs.get("failed_with_connection_error"):
             problems.append(("no_connection_error", f"sender did not fail with a connection error after RST: {obs.get('exception')}"))
         if scenario == "cancel_one" and not (obs.get("cancelled_ended") and obs.get("other_still_suspended")):
             problems.append(("cancel_not_isolated", f"cancelling one suspended sender disturbed the other: {obs}"))
@@ -247,7 +271,7 @@ def _judge_datagram(chk: Check, obs: dict[str, Any]) -> None:
 def run(chk: Check) -> None:
     n = 0
     for path in ("send_all", "send_all_from_iterable"):
-        for scenario in ("resume", "reset", "cancel_one", "two_senders"):
+        for scenario in ("resume", "reset", "eof_then_reset", "cancel_one", "two_senders"):
             obs = asyncio.run(_stream_scenario(path, scenario))
             _judge_stream(chk, obs)
             chk.traces += 1
@@ -255,7 +279,7 @@ def run(chk: Check) -> None:
             chk.sample({"adapter": "stream", **obs}, cap=5)
             n += 1
     for kind in ("endpoint", "listener"):
-        for scenario in ("resume", "cancel_then_resume", "lost_clean", "lost_exc"):
+        for scenario in ("resume", "pause_inside_sendto", "cancel_then_resume", "lost_clean", "lost_exc"):
             obs = vloop.run(lambda: _datagram_scenario(kind, scenario))
             _judge_datagram(chk, obs)
             chk.traces += 1
